@@ -24,7 +24,7 @@ BANDS = [(8.0, -1.0, 4148808), (1500.0, -0.1, 256), (400.0, 1.0 / 3.0, 64), (140
 P0 = {"c0": 0, "ch": 0, "k": 0, "cps": 1, "ff": 1, "nsub": 1, "m": 1}
 SITES = dict(c07.SITES, collapse="Filterbank.collapse", chan="Filterbank.read_chan", dedisp="Filterbank.dedisperse",
              read_block="FilReader.read_block", blk_downsample="FilterbankBlock.downsample",
-             blk_dedisperse="FilterbankBlock.dedisperse", get_tim="FilterbankBlock.get_tim",
+             blk_dedisperse="FilterbankBlock.dedisperse", get_tim="FilterbankBlock.get_tim", read_dedisp="FilReader.read_dedisp_block",
              ts_downsample="TimeSeries.downsample", ts_pad="TimeSeries.pad")
 
 
@@ -82,6 +82,13 @@ def cont_job(spec):
                 e["op"] = "extract_samps"
                 e["dm_applied"] = int(round(call["dm"] * 1000))
                 r = fil.read_block(start, nsamps).dedisperse(call["dm"])
+            elif op == "read_dedisp":
+                dl = np.atleast_1d(fil.header.get_dmdelays(call["dm"]))
+                if np.any(start + dl < 0) or np.any(start + dl + nsamps > n):
+                    continue                   # the dedispersed window leaves the file: refused by the library
+                e["op"] = "extract_samps"
+                e["dm_applied"] = int(round(call["dm"] * 1000))
+                r = fil.read_dedisp_block(start, nsamps, call["dm"])
             elif op == "get_tim":
                 r = fil.read_block(start, nsamps).get_tim()
             elif op == "ts_downsample":
@@ -159,7 +166,7 @@ def run(v) -> None:
     for bi, (fch1, foff, ts_us) in enumerate(BANDS):
         band = {"fch1": fch1, "foff": foff, "tsamp": ts_us / 1e6}
         specs = c07.build_specs(random.Random(seed() + bi), True, list(c07.SITES), band=band)
-        specs = specs[:: (6 if quick else 2)]
+        specs = specs[:: (6 if quick else 1)]
         for s in specs:
             s["id"] = len(fspecs) + 1
             s["calls"] = s["calls"][: (8 if quick else 30)]
@@ -170,7 +177,7 @@ def run(v) -> None:
     for bi, (fch1, foff, ts_us) in enumerate(BANDS):
         for n, nbits, c in ([(9, 8, 4), (7, 2, 4)] if quick else [(9, 8, 4), (7, 2, 4), (12, 32, 3), (10, 4, 6)]):
             calls = []
-            for _ in range(10 if quick else 40):
+            for _ in range(10 if quick else 160):
                 start = rng.randrange(0, n - 1)
                 nsamps = rng.randrange(2, n - start + 1) if n - start >= 2 else 1
                 gulp = rng.choice([1, 2, 3, n + 1])
@@ -182,6 +189,8 @@ def run(v) -> None:
                           dict(base, op="read_block", c0=c0, m=m, byfreq=True), dict(base, op="read_block", c0=0, m=c, byfreq=False),
                           dict(base, op="blk_downsample", tf=rng.choice([1, 2]), ff=rng.choice([f for f in (1, 2, 3) if c % f == 0])),
                           dict(base, op="blk_dedisperse", dm=rng.choice([0.0, 0.2])), dict(base, op="get_tim"),
+                          dict(base, op="read_dedisp", dm=rng.choice([0.0, 0.2, 0.4, -0.2])),
+                          dict(base, op="read_dedisp", start=rng.randrange(0, max(1, n // 2)), nsamps=rng.randrange(1, max(2, n // 3)), dm=rng.choice([0.2, 0.4, -0.3])),
                           dict(base, op="ts_downsample", tf=rng.choice([t for t in (1, 2, 3) if t < nsamps] or [1])), dict(base, op="ts_pad", npad=rng.choice([1, 5]))]
             cspecs.append({"id": len(cspecs) + 1, "seed": seed() * 13 + len(cspecs), "N": n, "C": c, "nbits": nbits,
                            "split": [n] if len(cspecs) % 2 else [n // 2, n - n // 2], "calls": calls,
